@@ -670,6 +670,7 @@ func (r *collection) addService(service any, lifetime Lifetime, opts ...AddOptio
 	// Handle As option - register under interface types
 	if len(options.As) > 0 {
 		// When As is specified, register the service under each interface type
+		family := make([]*Descriptor, 0, len(options.As))
 		for _, iface := range options.As {
 			interfaceType := reflect.TypeOf(iface).Elem()
 
@@ -709,6 +710,11 @@ func (r *collection) addService(service any, lifetime Lifetime, opts ...AddOptio
 					Operation:   "register as interface",
 					Cause:       err,
 				}
+			}
+
+			family = append(family, interfaceDescriptor)
+			for _, member := range family {
+				member.family = family
 			}
 		}
 
